@@ -1576,7 +1576,12 @@ class Builder:
 
 def build(env, spec, vals=None):
     b = Builder(env, vals or Vals(0))
-    stmt = b.build(spec)
+    try:
+        stmt = b.build(spec)
+    except NotImplementedError as e:
+        # the library refuses the construct when it is BUILT, with its documented message
+        # (e.g. "ARRAY.contains() not implemented for the base ARRAY type"): not a statement
+        raise Inapplicable(str(e)) from e
     return stmt, b
 
 
